@@ -17,8 +17,8 @@ EXPLANATION = 'thorough: complete int/slice enumeration for every axis length 0.
 EXHAUSTIVE = {'quick': False, 'thorough': False}
 ASSUMPTIONS = ['reference model: Python list indexing / dict label lookup written from the statement',
                'row Series cells compared at value strength modulo NumPy numeric promotion (exactness is C07)']
-TIERS = {'quick': {'shards': 8, 'budget_s': 60, 'min_nontrivial': 500},
-         'thorough': {'shards': 16, 'budget_s': 600, 'min_nontrivial': 5000}}
+TIERS = {'quick': {'shards': 8, 'budget_s': 120, 'min_nontrivial': 5000},
+         'thorough': {'shards': 16, 'budget_s': 1200, 'min_nontrivial': 50000}}
 ANCHORS = {
     'static_frame.core.frame': ['Frame._extract', 'Frame._compound_loc_to_iloc', 'Frame._extract_bloc'],
     'static_frame.core.series': ['Series._extract_iloc', 'Series._extract_loc'],
@@ -49,6 +49,12 @@ def _label_key(labels, kind, rng):
     return ('null',)
 
 
+def probes(ctx):
+    from sfmon.gen.frames import SeriesSpec
+    return [{'kind': 'series', 'spec': SeriesSpec([0, 1, 2, 3], 'auto', 'int64', [10, 11, 12, 13], None),
+             'route': 'loc', 'key': ('label', -1)}]
+
+
 def generate(ctx):
     rng = ctx.rng
     # (1) enumerated positional keys on small axes
@@ -59,7 +65,7 @@ def generate(ctx):
             enum_cases.append((n, d))
     share = enum_cases[ctx.shard::ctx.nshards]
     if ctx.tier == 'quick':
-        share = rng.sample(share, min(len(share), 220))
+        share = rng.sample(share, min(len(share), 400))
     for n, d in share:
         which = rng.choice(['series', 'frame_rows', 'frame_cols'])
         if which == 'series':
@@ -81,7 +87,7 @@ def generate(ctx):
             lay = rng.choice(F.layouts(spec.dtypes))
             yield {'kind': 'frame', 'spec': spec, 'layout': lay, 'route': 'iloc', 'rowkey': rk, 'colkey': ck}
     # (2) sampled
-    for _ in range(ctx.n(2600, 60000)):
+    for _ in range(ctx.n(40000, 600000)):
         r = rng.random()
         if r < 0.3:
             spec = F.random_series_spec(rng, max_n=9, kinds=_ROW_KINDS, dtypes=_DTYPES)
